@@ -50,6 +50,9 @@ func promOf(v value) *promMetric {
 }
 
 func (e *Exec) fault(tag string) bool {
+	if e.sh.cfg.Params["nofault"] == 1 {
+		return false // fault injection switched off for this job
+	}
 	tag = "fault." + tag
 	var fired bool
 	if s, ok := e.nextConcrete("bool"); ok {
